@@ -9,7 +9,10 @@ oracle : a plain Python table of the operations written from the property (dicts
 ID = "C12"
 MODULE = "PotasscoVerif.Props.C12"
 THEOREMS = ["PotasscoVerif.C12.C12_heap", "PotasscoVerif.C12.C12_redefinition", "PotasscoVerif.C12.C12_new_iff", "PotasscoVerif.C12.C12_term_add",
-            "PotasscoVerif.C12.C12_term_remove", "PotasscoVerif.C12.step_acc"]
+            "PotasscoVerif.C12.C12_term_remove", "PotasscoVerif.C12.step_acc",
+            "PotasscoVerif.C12.C12_elem_add", "PotasscoVerif.C12.C12_elem_redefinition", "PotasscoVerif.C12.C12_elem_new_iff", "PotasscoVerif.C12.C12_set_condition",
+            "PotasscoVerif.C12.C12_set_condition_refused", "PotasscoVerif.C12.C12_atom_add", "PotasscoVerif.C12.C12_filter", "PotasscoVerif.C12.C12_update",
+            "PotasscoVerif.C12.C12_tables_independent", "PotasscoVerif.C12.C12_visit_sound"]
 PARTIAL = {"C12_refines(elements, atoms)/C12_visit": "table-frame theorems are proved for terms; for elements and atoms, the visit orders and print() the statement is decided by "
            "correspondence and the Python table oracle"}
 BSIZES = (4096,)
